@@ -310,10 +310,14 @@ Definition prefix_entries (name up : list N) (existing : list (list N * list N))
               end in
   Ok (recs ++ [short_record entry sfn ext attr]).
 
-(* creation through FatPath: every component but "." / ".." passes lfn_valid first *)
+(* creation through FatPath: every component but "." / ".." passes lfn_valid in the constructor;
+   "." / ".." are references, and the calls that create an entry under the final component refuse
+   them (_must_be_named; the fact is regenerated from path.py) *)
 Definition create_records (name up : list N) (existing : list (list N * list N))
            (entry : list N) : res (list (list N)) :=
-  if is_dot_name name || lfn_valid name then prefix_entries name up existing entry
+  if is_dot_name name then
+    (if fatpath_mutators_refuse_dot_names then Err ValueError else prefix_entries name up existing entry)
+  else if lfn_valid name then prefix_entries name up existing entry
   else Err ValueError.
 
 (* ---------------- name test of __getitem__ / __setitem__ / __delitem__ ---------------- *)
